@@ -292,6 +292,25 @@ theorem checkStrs_strings (inD outD dom : List Addr) (f : Addr → List Addr)
   obtain ⟨o, ho, rfl⟩ := List.mem_map.mp hp
   simp [h1 a ha, h2 a ha o ho]
 
+theorem dom_label (cs : List Node) (sel : Core → List Lbl) (a : Addr)
+    (h : a ∈ cs.flatMap fun c => chanAddrs c.core.label (sel c.core)) : a.1 ∈ childLabels cs := by
+  obtain ⟨c, hc, ha⟩ := List.mem_flatMap.mp h
+  obtain ⟨x, _, rfl⟩ := List.mem_map.mp ha
+  exact List.mem_map.mpr ⟨c, hc, rfl⟩
+
+theorem firstBad_none (labels : List Lbl) (inD outD : List Addr) (l : List (Addr × Addr))
+    (hI : ∀ a ∈ inD, a.1 ∈ labels) (hO : ∀ a ∈ outD, a.1 ∈ labels)
+    (h : checkStrs inD outD l = true) : firstBad labels inD outD l = none := by
+  unfold checkStrs at h
+  rw [List.all_eq_true] at h
+  induction l with
+  | nil => rfl
+  | cons p l ih =>
+    have hp := h p (by simp)
+    simp only [Bool.and_eq_true, decide_eq_true_eq] at hp
+    simp only [firstBad, hI p.1 hp.1, hO p.2 hp.2, hp.1, hp.2, not_true_eq_false, if_false]
+    exact ih (fun q hq => h q (by simp [hq]))
+
 theorem valOf_some (l : List DChan) (x : Lbl) (h : x ∈ labelsOf l) : ∃ v, valOf l x = some v := by
   unfold valOf
   obtain ⟨ch, hch, rfl⟩ := List.mem_map.mp h
@@ -490,8 +509,25 @@ theorem setstate_ok (cfg : Cfg) (c : Core) (cs : List Node)
     · simpa using afterAdopt_fields c cs
     · simp
   obtain ⟨f1, f2, f3, f4, f5⟩ := hf
+  have l1 : ∀ a ∈ inDom (cs.map Node.adopt), a.1 ∈ childLabels (cs.map Node.adopt) :=
+    fun a ha => dom_label _ (fun c => labelsOf c.ins) a ha
+  have l2 : ∀ a ∈ outDom (cs.map Node.adopt), a.1 ∈ childLabels (cs.map Node.adopt) :=
+    fun a ha => dom_label _ (fun c => labelsOf c.outs) a ha
+  have l3 : ∀ a ∈ sInDom (cs.map Node.adopt), a.1 ∈ childLabels (cs.map Node.adopt) :=
+    fun a ha => dom_label _ (fun c => c.sigIns) a ha
+  have l4 : ∀ a ∈ sOutDom (cs.map Node.adopt), a.1 ∈ childLabels (cs.map Node.adopt) :=
+    fun a ha => dom_label _ (fun c => c.sigOuts) a ha
+  have b1 := firstBad_none (childLabels (cs.map Node.adopt)) (inDom (cs.map Node.adopt))
+    (outDom (cs.map Node.adopt)) ds l1 l2 hds
+  have b2 := firstBad_none (childLabels (cs.map Node.adopt)) (sInDom (cs.map Node.adopt))
+    (sOutDom (cs.map Node.adopt)) ss l3 l4 hss
+  have b3 : (if cfg.firing then firstBad (childLabels (cs.map Node.adopt)) (sOutDom (cs.map Node.adopt))
+      (sInDom (cs.map Node.adopt)) fo else none) = none := by
+    split
+    · exact firstBad_none _ _ _ fo l4 l3 hfo
+    · rfl
   unfold setstate
-  simp only [hs, hds, hss, hfo, Bool.not_true, Bool.and_false, Bool.false_eq_true, if_false]
+  simp only [hs, b1, b2, b3, Bool.not_true, Bool.false_eq_true, if_false]
   generalize hc' : (if cfg.keepCache then c else c.afterAdopt cs) = c' at f1 f2 f3 f4 f5 ⊢
   by_cases hk : c.kind.hasLinks = true
   · have L := hl hk
